@@ -23,8 +23,12 @@ def run_patch(patch, props, repo='/repo'):
     tmp = tempfile.mkdtemp(prefix='gsa_seed_')
     try:
         copy_sources(repo, tmp)
-        r = subprocess.run(['git', 'apply', '--unsafe-paths', '--directory', tmp, '--include', 'src/*', '--include', 'setup.cfg', '--include', 'docs/*', os.path.abspath(patch)],
+        r = subprocess.run(['git', 'apply', '--include', 'src/*', '--include', 'setup.cfg', '--include', 'docs/*', os.path.abspath(patch)],
                            cwd=tmp, capture_output=True, text=True)
+        changed = subprocess.run(['diff', '-rq', os.path.join(repo, 'src', 'gambit'), os.path.join(tmp, 'src', 'gambit'), '-x', '*.so', '-x', '*.c', '-x', '__pycache__'],
+                                 capture_output=True, text=True).stdout
+        if r.returncode == 0 and 'differ' not in changed and 'Only in' not in changed:
+            return None, 'patch applied but changed nothing'
         if r.returncode != 0:
             r = subprocess.run(['patch', '-p1', '-s', '-i', os.path.abspath(patch)], cwd=tmp, capture_output=True, text=True)
             if r.returncode != 0:
